@@ -128,6 +128,15 @@ def run(ctx):
             for attr, how, node in mutated_phase_attr(st):
                 muts.append((attr, how, node))
     shape_ok = len(muts) == 2 and muts[0][:2] == ("velocities", "mul_") and muts[1][:2] == ("velocities", "add_")
+    # friction and noise are applied on every call: no condition (nested test or early return) may skip either of them -- at Temp = 0 the noise amplitude vanishes by
+    # itself while the friction factor must still act
+    for attr_, how_, node_ in muts:
+        st_ = md.enclosing_stmt(node_) if not isinstance(node_, ast.stmt) else node_
+        conds_ = [(norm(a), pol) for a, pol, _ in controlling(md, st_, stop=th)]
+        ctx.check(not conds_, "R2", md, st_, "Molecular_Dynamics_Langevin._apply_langevin_thermostat", f"velocities.{how_} unconditional",
+                  f"the O-step update `velocities.{how_}` runs on every call of the thermostat", 
+                  f"the O-step update `velocities.{how_}(...)` is skipped under {conds_}: the thermostat no longer acts in that case (e.g. no friction at zero target temperature: the "
+                  f"run conserves energy instead of being quenched)")
     ctx.check(shape_ok, "R2", md, th, "Molecular_Dynamics_Langevin._apply_langevin_thermostat", th.name,
               "O-step is exactly: velocities *= c1; velocities += noise",
               f"O-step mutations are {[(a, h) for a, h, _ in muts]} (expected velocities.mul_ then velocities.add_)")
